@@ -337,16 +337,28 @@ def r15_4(facts, res, rule="R15-4"):
                     if not conds and str(n.get("ty")) == "bool":
                         t = _truth(body)
                         if t is not None:
-                            used = False
+                            # `let accepted = match ..; if !accepted { Err }` or `let rejected = match ..; if rejected { Err }`
+                            # (or the Err in the else branch): the flag value that leads to Err must be exactly D || E
+                            refuse_when = None
                             for l in walk(f["body"]):
                                 if l.get("s") == "Let" and l.get("init") is n and l["pat"].get("p") == "Bind":
                                     lid = l["pat"]["lid"]
                                     for i in walk(f["body"]):
-                                        if i.get("k") == "If" and i["cond"].get("k") == "Unary" and i["cond"].get("op") == "!" and \
-                                                i["cond"]["a"].get("lid") == lid and \
-                                                any(m.get("k") == "Call" and str(m["f"].get("path", "")).endswith("::Err") for m in walk(i["then"])):
-                                            used = True
-                            ok = used and all(t[(d, e_)] == (not d and not e_) for d in (False, True) for e_ in (False, True))
+                                        if i.get("k") != "If":
+                                            continue
+                                        c, neg = i["cond"], False
+                                        while isinstance(c, dict) and c.get("k") in ("Unary", "DropTemps"):
+                                            if c.get("k") == "Unary" and c.get("op") == "!":
+                                                neg = not neg
+                                            c = c.get("a") or c.get("e")
+                                        if not (isinstance(c, dict) and c.get("k") == "Path" and c.get("lid") == lid):
+                                            continue
+                                        err_then = any(m.get("k") == "Call" and str(m["f"].get("path", "")).endswith("::Err") for m in walk(i["then"]))
+                                        err_else = any(m.get("k") == "Call" and str(m["f"].get("path", "")).endswith("::Err") for m in walk(i.get("else") or {}))
+                                        if err_then != err_else:
+                                            refuse_when = (not neg) if err_then else neg
+                            used = refuse_when is not None
+                            ok = used and all(t[(d, e_)] == ((d or e_) if refuse_when else (not d and not e_)) for d in (False, True) for e_ in (False, True))
                             why = "the acceptance test is not `no doctype && no root element`, or its negative does not lead to Err"
     res.oblige(1, ok)
     if not ok:
